@@ -248,9 +248,6 @@ func judgeC04(sc *Scope, rings [][]ref.P, acc *Acc) []Problem {
 					}
 				}
 				if problem != "" {
-					if m.MaxV >= 3 && sig != "vertex-not-from-input" {
-						sig = "F5:" + sig
-					}
 					probs = append(probs, Problem{Sig: sig, What: problem, IDs: ids, Cfg: cfg, Got: res})
 				}
 			}
